@@ -636,7 +636,9 @@ pub fn exec(w: &mut World, step: &Step, h: HostileOp) -> Outcome {
             let r: Result<UnsignedEvent, String> = with_mdk!(w.nodes[node].mdk(), m => (|| {
                 let kp = m.parse_key_package(&vkp).map_err(|e| e.to_string())?;
                 // group data: take it from a scratch group created through the public API
-                let cfg = NostrGroupConfigData::new(format!("evil-{seed}"), "evil group".into(), None, None, None, vec![crate::node::relay()], vec![attacker_pk]);
+                // mode 8: more relays than one of the backends stores for a group
+                let relays: Vec<nostr::RelayUrl> = if mode == 8 { (0..101).filter_map(|i| nostr::RelayUrl::parse(&format!("wss://r{i}.evil.example")).ok()).collect() } else { vec![crate::node::relay()] };
+                let cfg = NostrGroupConfigData::new(format!("evil-{seed}"), "evil group".into(), None, None, None, relays, vec![attacker_pk]);
                 let scratch = m.create_group(&attacker_pk, vec![], cfg).map_err(|e| e.to_string())?;
                 let sg = m.load_mls_group(&scratch.group.mls_group_id).map_err(|e| e.to_string())?.ok_or("no scratch group")?;
                 let mut exts = sg.extensions().clone();
@@ -667,7 +669,7 @@ pub fn exec(w: &mut World, step: &Step, h: HostileOp) -> Outcome {
                     .use_ratchet_tree_extension(true)
                     .with_group_context_extensions(exts)
                     .with_capabilities(sg.own_leaf().ok_or("no leaf")?.capabilities().clone());
-                if mode == 1 || mode == 2 {
+                if mode == 1 || mode == 2 || mode == 9 {
                     if let Some(t) = &target_gid {
                         b = b.with_group_id(openmls::group::GroupId::from_slice(t.as_slice()));
                     }
@@ -688,6 +690,11 @@ pub fn exec(w: &mut World, step: &Step, h: HostileOp) -> Outcome {
                 ];
                 if mode != 4 {
                     tags.push(Tag::custom(TagKind::Custom("encoding".into()), ["base64"]));
+                }
+                if mode == 7 || mode == 9 {
+                    // a rumor larger than a backend stores (7: a new group, 9: under the id of a
+                    // group the victim holds or held)
+                    tags.push(Tag::custom(TagKind::Custom("pad".into()), ["p".repeat(110_000)]));
                 }
                 let mut rumor = EventBuilder::new(Kind::MlsWelcome, content).tags(tags).build(attacker_pk);
                 rumor.ensure_id();
